@@ -335,6 +335,8 @@ class MultiValue(Object):
     def __init__(self, value):
         # type: (AssignedAttribute) -> None
         self.values = [value]
+        # ``self.x = self.x``: a value may refer back to itself
+        self._visiting = False
 
     def add(self, value):
         # type: (MultiValue | AssignedAttribute) -> MultiValue | AssignedAttribute
@@ -358,16 +360,28 @@ class MultiValue(Object):
     def attr_list(self, ctx):
         # type: (EvalCtx) -> AttrList
         result: set[str] = set()
-        for v in self.get_rvalues(ctx):
-            result.update(v.attr_list(ctx))
+        if self._visiting:
+            return result
+        self._visiting = True
+        try:
+            for v in self.get_rvalues(ctx):
+                result.update(v.attr_list(ctx))
+        finally:
+            self._visiting = False
         return result
 
     def get_attr(self, ctx, name):
         # type: (EvalCtx, str) -> Object | Name | None
-        for v in self.get_rvalues(ctx):
-            result = v.get_attr(ctx, name)
-            if result is not None:
-                return result
+        if self._visiting:
+            return None
+        self._visiting = True
+        try:
+            for v in self.get_rvalues(ctx):
+                result = v.get_attr(ctx, name)
+                if result is not None:
+                    return result
+        finally:
+            self._visiting = False
         return None
 
 
